@@ -526,3 +526,27 @@ theorem toBytes_ofByteStr (s : List Nat) (hs : IsBytes s) : toBytes (ofByteStr s
 
 
 end Model.Bits
+
+/-! ### the two helper operations of Model.Des are the shared model's `__getitem__` / `__setitem__` on the paths the code takes -/
+namespace Model.Bits
+
+/-- `Bits.pick` is the shared model's `b[list]` on non-negative indices -/
+theorem getList_eq_pick (b : Bits) (idx : List Nat) : b.getList (idx.map Int.ofNat) = .ok (b.pick idx) := by
+  have h : (idx.map Int.ofNat).any (· < 0) = false := by
+    rw [List.any_eq_false]; intro x hx
+    obtain ⟨n, _, rfl⟩ := List.mem_map.mp hx
+    simp
+  simp only [getList, h, Bool.false_eq_true, if_false, pick, List.map_map, List.length_map]
+  rfl
+
+/-- `Bits.putSlice` is the shared model's `b[s:e] = v` for `0 ≤ s < e ≤ size` -/
+theorem setSlice_eq_putSlice (b : Bits) (s e : Nat) (v : Bits) (hse : s < e) (he : e ≤ b.size) :
+    b.setSlice (some (s : Int)) (some (e : Int)) none v = .ok (b.putSlice s e v) := by
+  have h1 : ¬ ((s : Int) < 0) := by omega
+  have h2 : ¬ ((e : Int) < 0) := by omega
+  have h3 : ¬ ((s : Int) > (b.size : Int)) := by omega
+  have h4 : ¬ ((e : Int) > (b.size : Int)) := by omega
+  have h5 : (e : Int) > (s : Int) := by omega
+  simp [setSlice, Py.sliceIndices, h1, h2, h3, h4, h5, bind, Except.bind, pure, Except.pure, putSlice]
+
+end Model.Bits
